@@ -5,7 +5,7 @@ from props import coregen as G, corecheck as K
 PID = 'C02'
 PROFILE = dict(named_cols=0.4, partial_args=0.3, inclusion=0.2, assign=0.5, lists=0.2, records=0.2, combine=0.55,
                disjunction=0.2, filter=0.4, negation=0.45, two_rules=0.4, distinct=0.5, aggregation=0.6,
-               ifthenelse=0.3, builtins=0.3, func_calls=0.3, share_names=0.5, set_agg=0.25)
+               ifthenelse=0.3, builtins=0.3, func_calls=0.3, share_names=0.5, multi_combine=0.6, set_agg=0.25)
 
 
 def uses_c02(prog):
